@@ -176,7 +176,11 @@ func C19(tier string) int {
 						continue
 					}
 					sg, cl := &recSigner{}, &recClient{status: 200, body: []byte(`{"ok":true}`)}
-					tp := pub.NewHttpSigTransport(cl, ag, fixedClock{now}, sg, sg, "https://l.example/u/alice#main-key", rsaKey)
+					// the key id is an opaque string the peer looks the key up by: handed to the signer as it is
+					keyIDs := []string{"https://l.example/u/alice#main-key", "https://l.example/users/jos\u00e9#main-key", "https://l.example/u/alice#", "HTTPS://L.Example/u/Alice#Key 1",
+						"https://l.example/u/" + strings.Repeat("long", 200) + "#k", "acct:alice@l.example", "https://xn--bcher-kva.example/u/a%2Fb#k?x=1"}
+					keyID := keyIDs[(pi+len(u)+len(ag))%len(keyIDs)]
+					tp := pub.NewHttpSigTransport(cl, ag, fixedClock{now}, sg, sg, keyID, rsaKey)
 					var rerr error
 					if op == "Deliver" {
 						rerr = tp.Deliver(context.Background(), pl, ap.U(u))
@@ -226,7 +230,7 @@ func C19(tier string) int {
 							bad("get-with-body", fmt.Sprintf("method %s body=%v", sc.method, sc.hasB))
 						}
 					}
-					if sc.key != crypto.PrivateKey(rsaKey) || sc.keyID != "https://l.example/u/alice#main-key" {
+					if sc.key != crypto.PrivateKey(rsaKey) || sc.keyID != keyID {
 						bad("key", "signer was not given the configured key / key id")
 					}
 					if d := headerDiff(sc.header, rq.header, "Signature"); len(d) > 0 {
@@ -560,7 +564,7 @@ func C19(tier string) int {
 	}
 	res.Traces += nSeq
 	res.Sample(M{"part": "recording-signer", "op": "Deliver", "url": urls[1], "agent": agents[1], "checked": "Date/Host/User-Agent/Content-Type at signing time, key, key id, body bytes, headers unchanged until Do"})
-	res.Rule = fmt.Sprintf("(1) {Dereference, Deliver} x recording signer and real httpsig RSA-SHA256 / RSA-SHA512 / HMAC-SHA256 signers x 4 signed-header lists x 3 agents x 10 URLs x 4 payloads: headers at signing time, key, key id, body bytes, nothing altered between signing and Do, real signatures verified with httpsig.NewVerifier on the request the client received; (2) every status 100..599 and a transport error for both operations, signer error; (3) BatchDeliver under a cooperative scheduler (sync overlay of pub/transport.go): recipients 0..3 with duplicates x per-recipient outcome {200, 202, 404, 500, client error, signer error}, two batches and a Dereference on one transport value, two / three concurrent Dereferences, two concurrent single Deliver calls, both together, and batch + single Deliver + Dereference (calls that share a signer), all interleavings within the preemption bound; oracle: no deadlock, one attempt per entry, error iff a failure and naming each, signer calls never overlap; (4) free-running -race pass; %d sequential cases", nSeq)
+	res.Rule = fmt.Sprintf("(1) {Dereference, Deliver} x recording signer and real httpsig RSA-SHA256 / RSA-SHA512 / HMAC-SHA256 signers x 4 signed-header lists x 3 agents x 10 URLs x 4 payloads x 7 key ids (non-ASCII, empty fragment, upper case and a space, 800 characters, acct:, escapes) in turn: headers at signing time, key, key id, body bytes, nothing altered between signing and Do, real signatures verified with httpsig.NewVerifier on the request the client received; (2) every status 100..599 and a transport error for both operations, signer error; (3) BatchDeliver under a cooperative scheduler (sync overlay of pub/transport.go): recipients 0..3 with duplicates x per-recipient outcome {200, 202, 404, 500, client error, signer error}, two batches and a Dereference on one transport value, two / three concurrent Dereferences, two concurrent single Deliver calls, both together, and batch + single Deliver + Dereference (calls that share a signer), all interleavings within the preemption bound; oracle: no deadlock, one attempt per entry, error iff a failure and naming each, signer calls never overlap; (4) free-running -race pass; %d sequential cases", nSeq)
 	res.Assumptions = []string{"interleavings at the granularity of mutex / WaitGroup / channel / go / SignRequest / Do operations", "unsynchronised accesses between those points are looked for by the supplementary -race run only"}
 	return res.Finish()
 }
